@@ -1,30 +1,33 @@
 """C01 - Marginal trees are exactly what the node and edge tables say (structural clauses)."""
 from __future__ import annotations
 
-from . import lib_tree, lib_guards, lib_order, lib_sweep, lib_py, lib_module
+from . import scopes
+from . import lib_tree, lib_guards, lib_order, lib_py, lib_module, lib_variant
 
 LEVEL = "other"
 EXPLANATION = ("Necessary structural conditions of 'tree state equals the parent map': inverse agreement of edge insertion/removal, "
-               "transition order, index sort keys and comparator, sweep-loop termination, tree state copy/clear completeness, "
-               "exact node-argument guards, NULL tests before NULL-able indexes and option forwarding in the Python views. "
-               "Does not decide that the forest equals the edge set for every table collection.")
+               "transition order, index sort keys and comparator, tree state copy/clear completeness, unconditional child pushes in "
+               "the traversals, exact node-argument guards, NULL tests before NULL-able indexes and option forwarding in the Python "
+               "views. Does not decide that the forest equals the edge set for every table collection.")
 
 
 def run(ctx):
     P = ctx.program()
     py = ctx.python()
+    ps, ms = scopes.py_scope("C01"), scopes.module_scope("C01")
     lib_tree.inverse_pairs(ctx, P)
     lib_tree.transitions(ctx, P)
     lib_tree.mirror_pairs(ctx, P)
     lib_tree.tree_copy_clear(ctx, P)
     lib_tree.index_domains(ctx, P)
     lib_order.sorter_keys(ctx, P)
-    lib_order.comparators(ctx, P)
-    lib_sweep.sweep_conditions(ctx, P)
+    lib_order.comparators(ctx, P, only={"cmp_index_sort", "cmp_edge"})
+    lib_variant.traversal_push(ctx, P, tus=["trees"])
     funcs = {"tsk_tree_check_node", "tsk_tree_seek", "tsk_tree_seek_index", "tsk_tree_set_tracked_samples"}
     seen = lib_guards.analyse(ctx, P, funcs=funcs)
     lib_guards.presence(ctx, seen, funcs=funcs)
-    lib_module.module_guards(ctx, P)
+    lib_module.module_guards(ctx, P, only=ms)
+    lib_module.parsed_used(ctx, P, only=ms)
     lib_py.null_index(ctx, py)
-    lib_py.unused_params(ctx, py, mods=("trees",))
-    lib_py.kw_forward(ctx, py, mods=("trees",))
+    lib_py.unused_params(ctx, py, mods=("trees",), only=ps)
+    lib_py.kw_forward(ctx, py, mods=("trees",), only=ps)
